@@ -201,6 +201,22 @@ MUTANTS = {
     "c20-local-slice-owned-only": ("C20", "EasyFEA/Simulations/_simu.py",
         "        nodes = self.mesh.nodes\n\n        iter = iter.copy()\n",
         "        nodes = self.mesh._Get_mpi_owned_nodes()\n\n        iter = iter.copy()\n"),
+    # ---- reverts of the repairs of waves 14-15
+    "c17-bounds-for-every-dof": ("C17", "EasyFEA/Simulations/Solvers.py",
+        "        lb, ub = lb[dofsUnknown], ub[dofsUnknown]\n",
+        "        pass\n"),
+    "c15-beam-iteration-without-rates": ("C15", "EasyFEA/Simulations/_beam.py",
+        "            iter[\"speed\"] = self._Get_v_n(self.problemType)\n            iter[\"accel\"] = self._Get_a_n(self.problemType)\n",
+        "            pass\n"),
+    "c14-history-mesh-not-observed": ("C14", "EasyFEA/Simulations/_simu.py",
+        "        # hear about later modifications of the mesh it works on\n        mesh._Add_observer(self)\n",
+        "        # hear about later modifications of the mesh it works on\n"),
+    "c14-return-map-built-once": ("C14", "EasyFEA/Models/InElastic/_behavior.py",
+        "        if self.__eigen is None or not np.array_equal(C, self.__eigen_C):\n",
+        "        if self.__eigen is None:\n"),
+    "c11-get-pmat-times-norm": ("C11", "EasyFEA/Models/_utils.py",
+        "        axis_1,\n        1 / np.linalg.norm(axis_1, axis=0),\n",
+        "        axis_1,\n        np.linalg.norm(axis_1, axis=0),\n"),
 }
 
 
